@@ -37,6 +37,37 @@ RULES = [  # (regex, replacements)  applied to code with comments stripped posit
     (r'\bJoinKind::(\w+)\b', [lambda m: None if m.group(1) == 'Bevel' else 'JoinKind::Bevel']),
     (r'PointType::Stroke\b', ['PointType::Fill']), (r'PointType::Fill\b', ['PointType::Stroke']),
 ]
+# ---- options (mut1): MUT_SKIP_GENERICS=1 drops `<`/`>` of generic brackets; MUT_EXTRA=1 adds semantic rules for plumbing
+# code; MUT_EXTRA2=1 adds the second-round rule classes; MUT_ONLY=<regex on the mutant id> selects mutants
+SKIP_GENERICS = os.environ.get('MUT_SKIP_GENERICS') == '1'
+ONLY = os.environ.get('MUT_ONLY')
+if os.environ.get('MUT_EXTRA') == '1':
+    RULES += [
+        (r'(?<=[(=,] )-(?=[a-z])|(?<=\()-(?=[a-z])', ['']),            # drop a unary minus
+        (r'\+=', ['-=']), (r'(?<![<>=!\-+*/&|])-=', ['+=']),
+        (r'\.intersection\(', ['.envelope(']),
+        (r'\.translate\(', ['.translate(Point::new(1, 0) + ', '.translate(Point::zero() - ']),
+        (r'\.is_zero_sized\(\)', ['.is_zero_sized() ^ true']),
+        (r'\.nth\(', ['.nth(1 + ']),
+        (r'\.top_left\b(?!\.)', ['.top_left.swap_xy()']), (r'\.size\b(?![.(])', ['.size.swap_xy()']),
+        (r'\.is_some\(\)', ['.is_none()']), (r'\.is_none\(\)', ['.is_some()']),
+        (r'\.saturating_as\(\)', ['.saturating_as::<i32>().saturating_add(1)']),
+        (r'\bSome\(color\)', ['None']),
+        (r'\bu32::MAX\b', ['0']),
+        (r'\.zip\(', ['.skip(1).zip(']), (r'\.filter\(', ['.skip(1).filter(']),
+        (r'\.take\(', ['.take(1 + ']),
+        (r'&self\.bounding_box\(\)', ['&self.bounding_box().offset(1)']),
+    ]
+if os.environ.get('MUT_EXTRA2') == '1':
+    RULES += [
+        # swapped call arguments f(a, b) -> f(b, a) (two simple arguments; differently typed pairs do not compile)
+        (r'(?<=\w\()([^(),;:{}]+), ([^(),;:{}]+)(?=\))', [lambda m: m.group(2) + ', ' + m.group(1)]),
+        (r'(?<![.])\.\.(?![.=])', ['..=']), (r'\.\.=', ['..']),
+        (r'<<(?!=)', ['>>']), (r'>>(?!=)', ['<<']),
+        (r'\.saturating_sub\(([^()]+)\)', [lambda m: ' - ' + m.group(1)]),
+        (r'\.saturating_add\(([^()]+)\)', [lambda m: ' + ' + m.group(1)]),
+        (r'(?<!let )\bSome\(([^()]*)\)(?! =)', ['None']),
+    ]
 
 
 def code_spans(src):
@@ -84,12 +115,19 @@ def mutants(path):
                 line = src[line_start:src.find('\n', a + m.start())]
                 if re.match(r'\s*(#\[|use |pub use |mod |//|///|assert|debug_assert)', line):
                     continue
+                if SKIP_GENERICS and m.group(0) in '<>' and not (seg[m.start() - 1:m.start()] == ' ' and seg[m.end():m.end() + 1] == ' '):
+                    continue   # rustfmt puts spaces around comparisons; `<`/`>` without them are generic brackets
                 for r in reps:
                     if callable(r):
+<<<<<<< HEAD
                         if re.match(r'\s*(pub(\([^)]*\))?\s+)?(const\s+)?fn\b', line):
                             continue      # a definition, not a call
                         r = r(m)
                         if r is None:
+=======
+                        r = r(m)
+                        if r == m.group(0):
+>>>>>>> wip-mut1
                             continue
                     res.append((a + m.start(), a + m.end(), m.group(0), r))
     res.sort()
@@ -120,8 +158,13 @@ for rel in FILES:
         if idx % STRIDE != OFFSET:
             continue
         line_no = src.count('\n', 0, a) + 1
+<<<<<<< HEAD
         mid = '%s:%d:%d:%s->%s' % (rel, line_no, a, re.sub(r'\s+', '', old) or '_', re.sub(r'\s+', '', new) or '_')
         if mid in done:
+=======
+        mid = '%s:%d:%d:%s->%s' % (rel, line_no, a, old.strip() or '_', new.strip() or '_')
+        if mid in done or (ONLY and not re.search(ONLY, mid)):
+>>>>>>> wip-mut1
             continue
         open(path, 'w').write(src[:a] + new + src[b:])
         try:
@@ -129,10 +172,10 @@ for rel in FILES:
             if 'error' in out:
                 verdict = 'NOCOMPILE'
             else:
-                rc, out = sh('timeout -k 10 400 cargo test --workspace --offline -j6 2>&1 | grep -E "^test result|error(\\[|:)|FAILED|panicked" | head -20', cwd=W, timeout=1500)
+                rc, out = sh('timeout -k 10 150 cargo test --workspace --offline -j6 2>&1 | grep -E "^test result|error(\\[|:)|FAILED|panicked" | head -20', cwd=W, timeout=1500)
                 # NB "test result: ok. 421 passed; 0 failed; ..." contains the word `failed`: only a non-zero count is a failure
                 if rc == 124 or 'FAILED' in out or 'error' in out or 'panicked' in out or re.search(r'\b[1-9]\d* failed', out) or out.count('test result') < 9:   # 9 = number of test binaries + doc-test runs on the unchanged tree
-                    verdict = 'KILLED-BY-TESTS'
+                    verdict = 'NOCOMPILE (test build)' if 'error[E' in out else 'KILLED-BY-TESTS'
                 else:
                     verdict = ''
                     for p in props:
@@ -143,7 +186,7 @@ for rel in FILES:
                             try:  # remember which suite / theorem reported it (first replay)
                                 d = json.load(open(os.path.join(V, re.search(r'replay=(\S+)', v[0]).group(1))))
                                 what = d.get('input') or d.get('first_disagreeing_case') or d.get('theorem_or_suite') or ''
-                                verdict += ' [' + str(what).replace('\t', ' ').replace('\n', ' ')[:60] + ']'
+                                verdict += ' [' + str(d.get('kind')) + ': ' + str(what).replace('\t', ' ').replace('\n', ' ')[:120] + ']'
                             except Exception:
                                 pass
                             break
